@@ -129,6 +129,53 @@ func TestC20(t *testing.T) {
 			}
 		}
 	}
+	// recycled destinations: a flat value that already holds something (small capacities) decodes
+	// a longer input; only the bytes needed may be allocated, not the declared limit
+	{
+		gr := &gen{r: newRng(2020), maxElem: 3, noBool: true}
+		u8 := &Ty{Kind: "u", N: 1}
+		reuse := []*Ty{
+			{Kind: "list", Elem: u8, N: 1 << 26}, {Kind: "list", Elem: u8, N: 1 << 40},
+			{Kind: "bitlist", N: 1 << 29}, {Kind: "bitlist", N: 1 << 40},
+			{Kind: "list", Elem: &Ty{Kind: "root"}, N: 1 << 24},
+			{Kind: "cont", Fields: []*Ty{{Kind: "list", Elem: u8, N: 1 << 26}, {Kind: "bitlist", N: 1 << 29}, {Kind: "u", N: 8}}},
+			{Kind: "list", Elem: &Ty{Kind: "list", Elem: u8, N: 1 << 26}, N: 1 << 26},
+			{Kind: "union", None: true, Fields: []*Ty{{Kind: "list", Elem: u8, N: 1 << 26}}},
+			{Kind: "vec", Elem: &Ty{Kind: "bitlist", N: 1 << 29}, N: 2},
+		}
+		for _, ty := range reuse {
+			for k := 0; k < 12; k++ {
+				prev := gr.val(ty)
+				gl := &gen{r: gr.r, maxElem: 3 + 40*(k%3), noBool: true}
+				next := gl.val(ty)
+				data, err := flatEncode(flatOf(ty, next))
+				if err != nil {
+					continue
+				}
+				if blown >= 3 {
+					break
+				}
+				var fres string
+				fa := measure(func() {
+					// the destination is rebuilt for every repetition of the measurement
+					// (its construction is part of the window; it is small)
+					dst := flatOf(ty, prev)
+					fres = guard(func() string {
+						if err := flatDecode(dst, data); err != nil {
+							return "ERR"
+						}
+						return "OK"
+					})
+				})
+				if fa > 1<<22 {
+					// megabytes for inputs of at most a few hundred bytes: the finding is made
+					blown++
+					runtime.GC()
+				}
+				out.emit("reuse", "c20r", []string{ty.Sexp(), hexBytes(data), prev.Sexp()}, joinKV("falloc="+hx(fa), "fres="+fres))
+			}
+		}
+	}
 	n := 150
 	if thorough() {
 		n = 3000
